@@ -1089,11 +1089,7 @@ where
     fn num_inner_nodes(&self) -> usize {
         self.unique_table
             .iter()
-            .map(|level| {
-                #[cfg(oxidd_verif)]
-                verif_before_lock(level);
-                level.lock().len()
-            })
+            .map(|level| level.lock().len())
             .sum()
     }
 
